@@ -703,8 +703,10 @@ pub fn check_kinematics(rc: &RunCtx, cx: &mut Ctx) -> usize {
             }
             let want = dt * 0.5 * (p.speed.value + s.speed.value);
             let got = s.offset.value - p.offset.value;
-            // the speed-limited sim snaps speed to the target within 1e-8 relative
-            let tol = 1e-12 * s.offset.value.abs() + dt * 0.5 * (1.1e-8 * s.speed.value.abs() + 1.1e-8) + 1e-9;
+            // the speed-limited sim moves the train with the computed speed change and then
+            // snaps the speed to the target when `almost_eq` says so: |dv| < 1e-8 (v + target),
+            // i.e. up to 2e-8 relative to the speed
+            let tol = 1e-12 * s.offset.value.abs() + dt * 0.5 * (2.2e-8 * s.speed.value.abs() + 1.1e-8) + 1e-9;
             if !((got - want).abs() <= tol) {
                 cx.fail(tag("offset-advance"), format!("saved step {k}: offset advanced {got} but dt*(v0+v1)/2 = {want} (v0 {} v1 {} dt {dt})", p.speed.value, s.speed.value));
             }
@@ -725,7 +727,11 @@ pub fn check_kinematics(rc: &RunCtx, cx: &mut Ctx) -> usize {
         }
         // front segment and in-segment offset identify the front position (initial state has
         // not been located yet: link_idx_front 0)
-        if k >= 1 && lpo.len() >= 2 {
+        if k >= 1 && lpo.len() >= 2 && s.offset.value > rc.run.offset_end {
+            // the front has run past the end of its path (C03's finding, reported there): no
+            // segment holds it
+            cx.label("front_beyond_end_of_path_not_located");
+        } else if k >= 1 && lpo.len() >= 2 {
             let li = s.link_idx_front as usize;
             match rc.run.route.iter().position(|r| *r as usize == li) {
                 None => cx.fail(tag("link_idx_front-not-on-route"), format!("saved step {k}: link_idx_front {li}, route {:?}", rc.run.route)),
